@@ -406,15 +406,21 @@ class vDDDLists:
             dt_list = [dt_list]
         vDDD = []
         tzid = None
+        value_types = set()
         for dt in dt_list:
             dt = vDDDTypes(dt)
             vDDD.append(dt)
             if 'TZID' in dt.params:
                 tzid = dt.params['TZID']
+            value_types.add(dt.params.get('VALUE'))
 
+        self.params = Parameters()
+        if len(value_types) == 1 and None not in value_types:
+            # a list of dates or periods is not of the default type DATE-TIME
+            self.params['VALUE'] = value_types.pop()
         if tzid:
             # NOTE: no support for multiple timezones here!
-            self.params = Parameters({'TZID': tzid})
+            self.params['TZID'] = tzid
         self.dts = vDDD
 
     def to_ical(self):
@@ -496,7 +502,11 @@ class vDDDTypes(TimeBase):
         else: # isinstance(dt, tuple)
             self.params = Parameters({'value': 'PERIOD'})
 
-        tzid = tzid_from_dt(dt) if isinstance(dt, (datetime, time)) else None
+        if isinstance(dt, tuple) and dt and isinstance(dt[0], datetime):
+            # a period is written in the time zone of its start
+            tzid = tzid_from_dt(dt[0])
+        else:
+            tzid = tzid_from_dt(dt) if isinstance(dt, (datetime, time)) else None
         if tzid is not None and tzid != 'UTC':
             self.params.update({'TZID': tzid})
 
@@ -921,7 +931,8 @@ class vPeriod(TimeBase):
         # set the timezone identifier
         # does not support different timezones for start and end
         tzid = tzid_from_dt(start)
-        if tzid:
+        if tzid and tzid != 'UTC':
+            # UTC is written with the Z suffix and must not have a TZID
             self.params['TZID'] = tzid
 
         self.start = start
